@@ -587,14 +587,24 @@ Fixpoint first_diff (i : nat) (l1 l2 : list (obs * N)) : option nat :=
 
 (** index of the first call whose observation differs; 1000 = the final page
     table, free lists or buffer lists differ *)
+(** one pass: compare the observations call by call and keep the state *)
+Fixpoint check_trace (i : nat) (s : st) (tr : list (op * obs * N)) : option nat + st :=
+  match tr with
+  | [] => inr s
+  | (o, ob, n) :: r =>
+    let '(s', ob') := step s o in
+    match ob', ob with
+    | OCrash, OCrash => inl None
+    | _, _ => if obs_eqb ob' ob && (N.of_nat (length (pt s')) =? n) then check_trace (S i) s' r
+              else inl (Some i)
+    end
+  end.
+
 Definition check_case (c : case) : option nat :=
-  let s0 := init (k_lps c) (k_gpus c) in
-  let ops := map (fun x => fst (fst x)) (k_trace c) in
-  match first_diff 0 (run_obs s0 ops) (map (fun x => (snd (fst x), snd x)) (k_trace c)) with
-  | Some k => Some k
-  | None => let s := run s0 ops in
-            if crashed s then None
-            else if final_ok s (k_pages c) (k_devs c) (k_bufs c) then None else Some 1000%nat
+  match check_trace 0 (init (k_lps c) (k_gpus c)) (k_trace c) with
+  | inl r => r
+  | inr s => if crashed s then None
+             else if final_ok s (k_pages c) (k_devs c) (k_bufs c) then None else Some 1000%nat
   end.
 
 (** (case index, call index) pairs, as N so that they print without scope
